@@ -1,4 +1,4 @@
-use crate::vicmd::{Direction, Motion, MotionCmd, To, Verb, VerbCmd, ViCmd, Word};
+use crate::vicmd::{CmdFlags, Direction, Motion, MotionCmd, To, Verb, VerbCmd, ViCmd, Word};
 use crate::keys::{KeyEvent as E, KeyCode as K, ModKeys as M};
 
 use super::{common_cmds, CmdReplay, ModeReport, ViMode};
@@ -43,11 +43,13 @@ impl ViMode for ViReplace {
 			E(K::Char('W'), M::CTRL) => {
 				self.pending_cmd.set_verb(VerbCmd(1, Verb::Delete));
 				self.pending_cmd.set_motion(MotionCmd(1, Motion::WordMotion(To::Start, Word::Normal, Direction::Backward)));
+				self.pending_cmd.flags |= CmdFlags::INSERT_SESSION;
 				self.register_and_return()
 			}
 			E(K::Char('H'), M::CTRL) |
 			E(K::Backspace, M::NONE) => {
 				self.pending_cmd.set_motion(MotionCmd(1,Motion::BackwardChar));
+				self.pending_cmd.flags |= CmdFlags::INSERT_SESSION;
 				self.register_and_return()
 			}
 
